@@ -79,6 +79,12 @@ def gen_params(rng, tier):
                     c, hi = rng.choice(tops)
                     d[c] = hi
             rows.append([d, rng.choice(NP_WEIGHTS)])
+        if rows and rng.random() < (0.5 if 0.12 <= r < 0.27 else 0.15):
+            # weights that are not all one but add up to the number of rows (2, 0, 1, 1, ...)
+            pat = [2.0, 0.0] * (len(rows) // 2) + [1.0] * (len(rows) % 2)
+            rng.shuffle(pat)
+            for r_, w_ in zip(rows, pat):
+                r_[1] = w_
         if nan_reaches_sum(spec, rows):
             continue
         mode = rng.choice(["array", "array", "unit", "scalar"])
@@ -87,7 +93,15 @@ def gen_params(rng, tier):
         if mode == "scalar":
             mode = ["scalar", rng.choice([2.0, 0.5, 3.0, 1.0, 1])]
         cut = rng.randint(0, len(rows))
-        return {"spec": spec, "rows": rows, "mode": mode, "cut": cut}
+        out = {"spec": spec, "rows": rows, "mode": mode, "cut": cut}
+        stacks = [b for b in gen.walk(spec) if b["k"] == "Stack" and len(b["edges"]) > 1]
+        if stacks and rng.random() < 0.3:
+            # the constructor neither sorts nor rejects thresholds given out of order; fill treats each one on its own.
+            # Such a tree is outside the model's well-formed trees: only the implementation-level comparison is made.
+            for b in stacks:
+                b["edges"] = list(reversed(b["edges"]))
+            out["unsorted"] = True
+        return out
     raise RuntimeError("no quantity-bearing tree generated")
 
 
@@ -117,6 +131,9 @@ def build(p):
             ("mcheck", ["same", "mp", "rp2"], True), ("mcheck", ["same", "sp", "rp2"], True)]
     expect += [("reply", len(ops) - 6, "ok", "fill.numpy on a pre-filled aggregator raised"),
                ("eqdoc_pruned", "m", "r", "row fills followed by fill.numpy differ from per-row fill")]
+    if p.get("unsorted"):
+        # thresholds out of order: not a `good` tree of the model, so the theorem's hypotheses are not asserted
+        ops = [(("snap", "_skipped", "v") if (o[0] == "mcheck" and o[1][0] in ("good", "nphyp", "goodrun")) else o) for o in ops]
     return {"ops": ops, "expect": expect}
 
 
